@@ -683,7 +683,12 @@ def acc_plain(ctx):
             src = r[2][0] if is_call(r, 'collect') and r[2] else r
             ok = over_field(src)
         elif kind == 'nth':
-            ok = is_call(r, 'nth') and len(r[2]) == 2 and over_field(r[2][0]) and value_path(drop_lv(r[2][1])) == (2, ())
+            # the n-th element of the walk, in any spelling the position algebra understands (nth, skip+next, enumerate+find, ..)
+            from .posalg import PosAlg
+            p_ = PosAlg(facts, field, lambda x: value_path(drop_lv(x)) == (2, ())).apos(r)
+            if p_ is not None and p_[0] == 'enum':
+                p_ = p_[1]
+            ok = p_ == ('pos', 'I', 0)
         elif kind == 'lookup':
             ok = is_call(r, ('get',)) and len(r[2]) == 2 and param_path(r[2][0]) == (1, (field,)) and value_path(drop_lv(r[2][1])) == (2, ())
         elif kind in ('first', 'last'):
